@@ -35,9 +35,10 @@ type Prog struct {
 	cg  *CallGraph
 	own *Own
 
-	pathCache   map[string][]*Path
-	carriedInfo map[string]map[int]carriedInfo
-	lastPathKey string
+	summaryCache map[summaryKey][]Deriv
+	pathCache    map[string][]*Path
+	carriedInfo  map[string]map[int]carriedInfo
+	lastPathKey  string
 }
 
 type LoadConfig struct {
